@@ -23,6 +23,20 @@ def extra_entries():
         add('ReversePermutation/%d' % f, lambda f=f: T.ReversePermutation(f), [f])
         add('ActNorm/%d' % f, lambda f=f: _init_actnorm(T.ActNorm(f), [f]), [f])
         add('BatchNorm/%d' % f, lambda f=f: _init_batchnorm(T.BatchNorm(f), f), [f])
+    def scaled_q(build, scale):
+        # a reflection I - 2 q q^T / |q|^2 does not depend on the length of q: q-vectors far from unit length are ordinary parameter values
+        def b():
+            t = build()
+            with torch.no_grad():
+                for n, p in t.named_parameters():
+                    if n.endswith('q_vectors'):
+                        p.copy_(scale * torch.randn(p.shape))
+            return t
+        return b
+    for sc, tag in ((1e-3, 'small'), (3e2, 'large')):
+        add('Householder/q-%s' % tag, scaled_q(lambda: T.HouseholderSequence(3, 4), sc), [3], extra={'fixed_q': True})
+        add('QRLinear/q-%s' % tag, scaled_q(lambda: T.QRLinear(3, num_householder=3), sc), [3], extra={'fixed_q': True})
+        add('SVDLinear/q-%s' % tag, scaled_q(lambda: T.SVDLinear(3, num_householder=2, identity_init=False), sc), [3], extra={'fixed_q': True})
     def warm(cls, **kw):
         # eval mode, cache on, and the FIRST cached call is an inverse (as when sampling before evaluating densities)
         def build():
